@@ -16,7 +16,7 @@ type Scenario struct {
 	EncVia   string `json:"enc_via,omitempty"` // "option" | "dsn" | "env"
 	Logger   string `json:"logger"`            // "discard" | "text" | "json"
 	SWRSet   bool   `json:"swr_set,omitempty"`
-	TZMin int `json:"tz_min,omitempty"` // offset of the process time zone from UTC in minutes (time.Local during the run)
+	TZMin    int    `json:"tz_min,omitempty"` // offset of the process time zone from UTC in minutes (time.Local during the run)
 	SWRNs    int64  `json:"swr_ns,omitempty"`
 	Jitter   bool   `json:"jitter,omitempty"` // nanosecond jitter in durations (else whole seconds)
 	StoreLat int64  `json:"store_lat_ns,omitempty"`
@@ -112,7 +112,7 @@ type Op struct {
 	Poison      bool        `json:"poison,omitempty"`
 	Reuse       bool        `json:"reuse,omitempty"`        // send the very *http.Request value of this client's previous identical operation again (a polling loop)
 	EmptyMethod bool        `json:"empty_method,omitempty"` // send the GET with Method "" (what a struct-literal http.Request has)
-	OddURL string `json:"odd_url,omitempty"` // a request URL of unusual shape (relative, IPv6 zone, no host, opaque ...) for a path no resource owns: the origin refuses it
+	OddURL      string      `json:"odd_url,omitempty"`      // a request URL of unusual shape (relative, IPv6 zone, no host, opaque ...) for a path no resource owns: the origin refuses it
 	Admin       string      `json:"admin,omitempty"`        // "" | "restart" | "crash" | "corrupt" | "dump"
 	AdminArg    int         `json:"admin_arg,omitempty"`
 }
